@@ -62,7 +62,21 @@ namespace occa {
     }
 
     void leftUnaryOpNode::print(printer &pout) const {
-      pout << op << *value;
+      pout << op;
+      // Keep [- -a], [+ +a], [- --a] and [& &a] from being glued
+      // into the different tokens [--a], [++a], [---a] and [&&a]
+      if (value->type() & exprNodeType::leftUnary) {
+        const std::string &outerStr = op.str;
+        const std::string &innerStr = ((const leftUnaryOpNode*) value)->op.str;
+        if (outerStr.size() && innerStr.size()) {
+          const char c = innerStr[0];
+          if ((outerStr[outerStr.size() - 1] == c) &&
+              ((c == '+') || (c == '-') || (c == '&'))) {
+            pout << ' ';
+          }
+        }
+      }
+      pout << *value;
     }
 
     void leftUnaryOpNode::debugPrint(const std::string &prefix) const {
